@@ -57,6 +57,10 @@ def reader_arms(F):
                 if p.get("k") == "TupleStruct" and (p.get("path") or "").endswith("Some") and p["pats"][0].get("k") == "Lit" and p["pats"][0]["e"].get("lit") == "str":
                     arms[p["pats"][0]["e"]["v"]] = a
                     good = True
+                elif p.get("k") == "Lit" and p["e"].get("lit") == "str":
+                    # `match name { "peppi.json" => .. }` on a &str obtained with a total fallback
+                    arms[p["e"]["v"]] = a
+                    good = True
                 elif p.get("k") in ("Wild", "Bind"):
                     arms["_"] = a
             if good:
